@@ -109,7 +109,7 @@ def do_transposes(manager, case, world, rank, exact_buffers=False):
             buf = cm.poison(np.empty(bsize + extra, dtype=dt)) if use_buf else None
         want_src = cm.local(G, ls)
         source[:ls.size] = want_src.ravel()
-        manager.transpose(source, dest, src, dst, buf)
+        manager.transpose(source, dest, cm.fresh(src), cm.fresh(dst), buf)
         want = cm.local(G, ld)
         got = dest[:ld.size].reshape(ld.shape)
         if not cm.bits_equal(got, want):
